@@ -70,18 +70,47 @@ func dischargeHedged(o *Obligation, timeoutS int) {
 		v, out, name string
 		t          float64
 	}
-	ch := make(chan res, len(solvers))
+	ch := make(chan res, len(solvers)+2)
 	withModel := o.smt(true)
 	noModel := o.smt(false)
-	start := func(s solverSpec, st chan struct{}) {
+	plainModel := o.smtV(true, false)
+	plain := o.smtV(false, false)
+	hasAlt := plain != noModel
+	// startV: run solver s on the skolemised (sk) or plain form of the query
+	startV := func(s solverSpec, sk bool, st chan struct{}) {
 		go func() {
 			in := noModel
+			if !sk {
+				in = plain
+			}
 			if strings.HasPrefix(s.name, "z3-new") {
 				in = withModel
+				if !sk {
+					in = plainModel
+				}
+			}
+			name := s.name
+			if !sk && hasAlt {
+				name += "/plain"
 			}
 			v, out, t := runSolverCtx(ctx, s, in, timeoutS, st)
-			ch <- res{v, out, s.name, t}
+			ch <- res{v, out, name, t}
 		}()
+	}
+	start := func(s solverSpec, st chan struct{}) { startV(s, true, st) }
+	startHedge := func() int {
+		n := 0
+		for i, s := range hedgeSolvers() {
+			// alternate forms across the hedge; the primary configuration also gets a run
+			// on the plain form when the two differ
+			startV(s, !(hasAlt && i%2 == 0), nil)
+			n++
+		}
+		if hasAlt {
+			startV(solvers[0], false, nil)
+			n++
+		}
+		return n
 	}
 	// the hedge delay counts from the moment the primary solver actually runs (it may
 	// first wait for a machine-wide slot)
@@ -100,10 +129,7 @@ func dischargeHedged(o *Obligation, timeoutS int) {
 		case <-timer.C:
 			if !hedged {
 				hedged = true
-				for _, s := range hedgeSolvers() {
-					start(s, nil)
-					running++
-				}
+				running += startHedge()
 			}
 		case r := <-ch:
 			running--
@@ -124,10 +150,7 @@ func dischargeHedged(o *Obligation, timeoutS int) {
 			if !hedged {
 				// primary gave up early (unknown): start the others at once
 				hedged = true
-				for _, s := range hedgeSolvers() {
-					start(s, nil)
-					running++
-				}
+				running += startHedge()
 			}
 		}
 	}
